@@ -5,5 +5,5 @@ sys.path.insert(0, os.path.dirname(os.path.dirname(os.path.abspath(__file__))))
 from pyvc.load import load_registry
 reg = load_registry()
 for k, c in reg.contracts.items():
-    if not c.abstract and not c.trusted:
+    if not c.abstract and not c.trusted and not c.options.get('bounded_only'):
         print(k)
